@@ -13,7 +13,11 @@ def main():
     ap = argparse.ArgumentParser()
     ap.add_argument('patch'); ap.add_argument('--props', default=None); ap.add_argument('--demo', default=None)
     ap.add_argument('--tests', action='store_true')
+    ap.add_argument('--wt', default=None, help='worktree to use (default /tmp/wt/eval)')
     a = ap.parse_args()
+    global WT
+    if a.wt:
+        WT = a.wt
     if not os.path.isdir(WT):
         r = sh(f'git -C /repo worktree add -q --detach {WT} HEAD'); assert r.returncode == 0, r.stderr
     sh(f'git -C {WT} checkout -q --detach $(git -C /repo rev-parse HEAD) && git -C {WT} checkout -- . && git -C {WT} clean -fdq')
